@@ -65,6 +65,7 @@ def _opts(draw, layout, nslab):
         else:
             o['files'] = list(range(nslab))
     o['fields'] = 'all' if o['passthrough'] else draw(st.sampled_from(['id', 'id', 'id', 'default', 'all', 'N']))
+    o['cleandir_arg'] = draw(st.sampled_from([False, False, True]))  # pass cleandir= explicitly instead of auto-detection
     return o
 
 
@@ -113,7 +114,7 @@ def nontrivial(d):
 
 def classes(d):
     cat, o = d['cat'], d['opts']
-    c = ['layout=' + cat['layout'], 'cleaned=%s' % o['cleaned'], 'AB=' + o['AB'], 'path=' + o['pathform'], 'compression=' + cat['compression'], 'fields=' + o['fields']]
+    c = ['layout=' + cat['layout'], 'cleanlayout=' + cat.get('cleanlayout', 'std'), 'cleaned=%s' % o['cleaned'], 'AB=' + o['AB'], 'path=' + o['pathform'], 'compression=' + cat['compression'], 'fields=' + o['fields']]
     if o['passthrough']:
         c.append('passthrough')
     ow = _owned(cat, o)
@@ -228,6 +229,8 @@ def _check(cat, cdesc, o, CompaSOHaloCatalog):
     if lc and o['fields'] in ('id', 'N'):
         fields = ['N', 'npstartA', 'npoutA']  # 'id' is not a light-cone column; LC keeps the stored index columns
     kw = dict(cleaned=cleaned, subsamples=sub, fields=fields, unpack_bits=o['unpack_bits'], passthrough=bool(o['passthrough']))
+    if o.get('cleandir_arg') and cleaned and not lc:
+        kw['cleandir'] = cat.cleandir
     with warnings.catch_warnings():
         warnings.simplefilter('ignore')
         try:
